@@ -28,6 +28,7 @@ type vBehav struct {
 	ignoreTerm bool     // only SIGKILL ends it
 	startErr   bool     // Start() fails
 	lines      []string // stdout lines of every attempt
+	runSecs    int      // a command that ends by itself first runs for that many seconds
 	latency    int      // 0: exits/dies as soon as it is scheduled; 1: only when nothing else can run; 2: both (choice)
 }
 
@@ -176,6 +177,13 @@ func (c *vCmd) life() {
 		byStop = true
 	} else {
 		// ends by itself - unless a signal arrives first
+		if b.runSecs > 0 {
+			select {
+			case <-c.stopCh:
+				byStop = true
+			case <-time.After(time.Duration(b.runSecs) * time.Second):
+			}
+		}
 		select {
 		case <-c.stopCh:
 			byStop = true
